@@ -392,6 +392,21 @@ func runC20(c *vc.Ctx) error {
 	c.Ev.Set("iterator_option_combinations_exercised_nontrivial", len(total.CombosNonTriv))
 	c.Ev.Set("iterator_option_combinations_exercised_any", len(total.CombosAll))
 	c.Ev.Set("all_iterator_option_combinations_exercised", len(total.CombosNonTriv) == totalCombos)
+	// timestamp-stripping mode of iterators: engine x (range|raw iterator) x mode x stored value length class
+	notsMissing := []string{}
+	for _, e := range engines {
+		for _, api := range []string{"range", "raw"} {
+			for _, mode := range []string{"off", "kv", "hash", "othertype"} {
+				for _, lc := range []string{"len<8", "len=8", "len>8"} {
+					if k := e + "/" + api + "/" + mode + "/" + lc; total.NoTSCases[k] == 0 {
+						notsMissing = append(notsMissing, k)
+					}
+				}
+			}
+		}
+	}
+	c.Ev.Set("iterator_no_timestamp_elements_by_engine_api_mode_length", total.NoTSCases)
+	c.Ev.Set("iterator_no_timestamp_cases_not_exercised", notsMissing)
 	c.Ev.Count("point_reads_compared", total.PointReads)
 	c.Ev.Count("iterator_results_compared", total.IterChecks)
 	c.Ev.Count("iterator_elements_compared", total.IterElems)
